@@ -278,6 +278,13 @@ TEMPLATES = [
       lambda ms, mt, eq: 2 if eq else 1, None),
     T("let-setv", lambda s, t: "(setv zzres (let [%s 1] (setv %s 2) %s))" % (s, t, s),
       lambda ms, mt, eq: 2 if eq else 1, None),
+    T("let-then-from-import", lambda s, t: '(setv zzres (let [%s "LET"] (import zzfake [%s]) %s))' % (t, s, t),
+      lambda ms, mt, eq: "val:" + ms if eq else "LET", _one,
+      setup=_setup_fake_objects, cleanup=_cleanup_fake_objects,
+      doc="api.rst on let: assignments via import are hoisted to normal Python scope, so after the import a let-bound name with the same "
+          "mangling means the imported Python variable (as pinned by tests/native_tests/let.hy for defn/defclass/import)"),
+    T("let-then-defn", lambda s, t: '(setv zzres (let [%s "LET"] (defn %s [] 1) (if (callable %s) "FN" %s)))' % (t, s, t, t),
+      lambda ms, mt, eq: "FN" if eq else "LET", _one),
     # ---- except
     T("except-variable", lambda s, t: ("(try (raise (ValueError 7))\n  (except [%s ValueError]\n"
                                        '    (setv zzres (try (get (. %s args) 0) (except [NameError] "unbound")))))') % (s, t),
@@ -329,6 +336,7 @@ SNIPPET_SETUP = {
     "python-setattr->dotted-call": _SN_METH,
     "python-setattr->dot-form-call": _SN_METH,
     "from-import-name": _SN_FAKE,
+    "let-then-from-import": _SN_FAKE,
     "from-import-name-as": _SN_FAKE,
     "import-module": "import sys; sys.modules[ms] = types.ModuleType(ms); sys.modules[ms].zzid = 'mod:' + ms",
     "require-name": _SN_MAC,
